@@ -805,6 +805,9 @@ class Interp:
                     it = iter(vs)
                     lo, hi, step = [next(it) if p is not None else None for p in parts]
                     if step is not None and step != 1:
+                        if step == -1 and lo is None and hi is None:
+                            yield from self.lib.reverse(self, st2, v)        # x[::-1]
+                            continue
                         raise Unsupported("slice step")
                     yield from self.lib.slice(self, st2, v, lo, hi)
             else:
